@@ -11,13 +11,16 @@ package gcs
 //@   uses mul_split32(int(v >> 32), int(u64(u32(v))), int(nHi), int(nLo))
 
 //@ func gcs.(*Filter).readFullUint64
-//@   requires b != nil && f.p <= 32
+//@   requires b != nil && f.p <= 32 && *b < 4611686018427387904
 //@   ensures *b <= old(*b)
 //@   ensures err == nil ==> *b < old(*b)
 //@   ensures old(*b) >= 0 ==> *b >= 0
 //@   modifies *b
 //@   loop 1 invariant *b < old(*b) && (old(*b) >= 0 ==> *b >= 0)
 //@   loop 1 decreases *b
+//@   ensures err == nil ==> result0 == ($loc_quotient << f.p) + $ret0_ReadBits#1 && int($loc_quotient) == old(*b) - *b - 1 - int(f.p)
+//@   ensures err != nil ==> result0 == 0
+//@   loop 1 invariant int(quotient) == old(*b) - *b - 1 && int(quotient) < 4611686018427387904
 //@   assert after ReadBits#1: $arg1 == int(f.p)
 
 //@ func gcs.(*Filter).N
@@ -46,31 +49,57 @@ package gcs
 
 //@ func gcs.(*Filter).Match
 //@   requires f.p <= 32
+//@   ensures f.n == 0 ==> !result0 && err == nil
+//@   ensures len(f.filterData) == 0 ==> !result0
+//@   ensures $calls_Sum64 <= 1 && $calls_fastReduction <= 1
+//@   ensures result0 ==> err == nil && $loc_value == $loc_term && $loc_term == $ret_fastReduction#1
 //@   modifies nothing
+//@   assert after NewBStreamReader#1: len($arg0) == len(f.filterData) && forall k :: 0 <= k && k < len(f.filterData) ==> $arg0[k] == f.filterData[k]
+//@   assert after Sum64#1: sameobj($arg0, data) && len($arg0) == len(data) && $arg0.off == data.off
+//@   assert after fastReduction#1: $arg0 == $ret_Sum64#1 && $arg1 == f.modulusNP >> 32 && $arg2 == u64(u32(f.modulusNP))
+//@   assert after readFullUint64#1: $arg0 == f && $arg1 == b
 //@   alloc len(f.filterData) + 64
-//@   loop 1 invariant i <= f.n && b != nil && fresh(b) && *b >= 0
+//@   loop 1 invariant i <= f.n && b != nil && fresh(b) && *b >= 0 && *b <= 8 * len(f.filterData)
+//@   loop 1 invariant (i > 0 ==> value < term) && term == $ret_fastReduction#1
 //@   loop 1 decreases *b
 
 //@ func gcs.(*Filter).ZipMatchAny
 //@   requires f.p <= 32
+//@   ensures (f.n == 0 || len(data) == 0) ==> !result0 && err == nil
+//@   ensures result0 ==> err == nil && 0 <= $loc_queryIndex && $loc_queryIndex < len($loc_values) && $loc_values[$loc_queryIndex] == $loc_value
+//@   ensures len(f.filterData) == 0 ==> !result0
 //@   modifies nothing
+//@   assert after NewBStreamReader#1: len($arg0) == len(f.filterData) && forall k :: 0 <= k && k < len(f.filterData) ==> $arg0[k] == f.filterData[k]
+//@   assert after Sum64#1: sameobj($arg0, data[$i1]) && len($arg0) == len(data[$i1])
+//@   assert after fastReduction#1: $arg0 == $ret_Sum64#1 && $arg1 == f.modulusNP >> 32 && $arg2 == u64(u32(f.modulusNP))
+//@   assert after readFullUint64#1: $arg0 == f && $arg1 == b
 //@   alloc len(f.filterData) + len(data) + 64
 //@   loop 1 invariant len(values) == $i && cap(values) == len(data) && fresh(values)
-//@   loop 2 invariant i <= f.n && 0 <= queryIndex && queryIndex <= querySize && querySize == len(values) && b != nil && fresh(b) && *b >= 0
+//@   loop 2 invariant i <= f.n && 0 <= queryIndex && queryIndex <= querySize && querySize == len(values) && b != nil && fresh(b) && *b >= 0 && *b <= 8 * len(f.filterData)
 //@   loop 2 decreases *b
-//@   loop 3 invariant 0 <= queryIndex && queryIndex <= querySize && querySize == len(values) && i < f.n && b != nil && fresh(b) && *b >= 0
+//@   loop 3 invariant 0 <= queryIndex && queryIndex <= querySize && querySize == len(values) && i < f.n && b != nil && fresh(b) && *b >= 0 && *b <= 8 * len(f.filterData)
 //@   loop 3 decreases querySize - queryIndex
 
 //@ func gcs.(*Filter).HashMatchAny
 //@   requires f.p <= 32
+//@   ensures len(data) == 0 ==> !result0 && err == nil
 //@   modifies nothing
+//@   assert after NewBStreamReader#1: len($arg0) == len(f.filterData) && forall k :: 0 <= k && k < len(f.filterData) ==> $arg0[k] == f.filterData[k]
+//@   assert after Sum64#1: sameobj($arg0, data[$i2]) && len($arg0) == len(data[$i2])
+//@   assert after fastReduction#1: $arg0 == $ret_Sum64#1 && $arg1 == f.modulusNP >> 32 && $arg2 == u64(u32(f.modulusNP))
+//@   assert after readFullUint64#1: $arg0 == f && $arg1 == b
 //@   alloc 8 * len(f.filterData) + len(data) + 64
-//@   loop 1 invariant b != nil && fresh(b) && *b >= 0 && values != nil
+//@   loop 1 invariant b != nil && fresh(b) && *b >= 0 && values != nil && *b <= 8 * len(f.filterData)
 //@   loop 1 decreases *b
 
 //@ func gcs.(*Filter).MatchAny
 //@   requires f.p <= 32
+//@   ensures len(data) == 0 ==> !result0 && err == nil
+//@   ensures len(data) >= int(f.n / 2) ==> $calls_HashMatchAny == 1 && $calls_ZipMatchAny == 0 && result0 == $ret0_HashMatchAny#1
+//@   ensures len(data) < int(f.n / 2) ==> $calls_ZipMatchAny == 1 && $calls_HashMatchAny == 0 && result0 == $ret0_ZipMatchAny#1
 //@   modifies nothing
+//@   assert after HashMatchAny#1: $arg0 == f && sameobj($arg2, data) && len($arg2) == len(data)
+//@   assert after ZipMatchAny#1: $arg0 == f && sameobj($arg2, data) && len($arg2) == len(data)
 
 //@ func gcs.(*Filter).NBytes
 //@   ensures err == nil ==> len(result0) == wire.varintsize(u64(f.n)) + len(f.filterData)
